@@ -15,7 +15,8 @@ def skelUpgradePerform : List String := ["requireAdoption", "existingResourceCon
 def skelUpgradeReleasing : List String := ["cfg.execHook:HookPreUpgrade", "KubeClient.Update", "cfg.recordRelease", "cfg.recordRelease", "waiter.WaitWithJobs", "cfg.recordRelease", "waiter.Wait", "cfg.recordRelease", "cfg.execHook:HookPostUpgrade", "set originalRelease StatusSuperseded", "cfg.recordRelease", "set upgradedRelease StatusDeployed"]
 def skelUpgradeFail : List String := ["set rel StatusFailed", "cfg.recordRelease", "KubeClient.Delete"]
 def skelRollbackPrepare : List String := ["Releases.Last", "Releases.History", "Releases.Get"]
-def skelRollbackPerform : List String := ["cfg.execHook:HookPreRollback", "KubeClient.Update", "set currentRelease StatusSuperseded", "set targetRelease StatusFailed", "cfg.recordRelease", "cfg.recordRelease", "KubeClient.Delete", "waiter.WaitWithJobs", "cfg.recordRelease", "cfg.recordRelease", "waiter.Wait", "cfg.recordRelease", "cfg.recordRelease", "cfg.execHook:HookPostRollback", "set rel StatusSuperseded", "cfg.recordRelease", "set targetRelease StatusDeployed"]
+def skelRollbackPerform : List String := ["cfg.execHook:HookPreRollback", "r.failRollback", "KubeClient.Update", "set currentRelease StatusSuperseded", "set targetRelease StatusFailed", "cfg.recordRelease", "cfg.recordRelease", "KubeClient.Delete", "waiter.WaitWithJobs", "cfg.recordRelease", "cfg.recordRelease", "waiter.Wait", "cfg.recordRelease", "cfg.recordRelease", "cfg.execHook:HookPostRollback", "r.failRollback", "set rel StatusSuperseded", "cfg.recordRelease", "set targetRelease StatusDeployed"]
+def skelRollbackFail : List String := ["set targetRelease StatusFailed", "cfg.recordRelease"]
 def skelUninstallRun : List String := ["KubeClient.IsReachable", "Releases.History", "u.purgeReleases", "set rel StatusUninstalling", "cfg.execHook:HookPreDelete", "Releases.Update", "u.deleteRelease", "waiter.WaitForDelete", "cfg.execHook:HookPostDelete", "set rel StatusUninstalled", "u.purgeReleases", "Releases.Update"]
 def skelExecHook : List String := ["cfg.deleteHookByPolicy:HookBeforeHookCreation", "cfg.recordRelease", "KubeClient.Create", "waiter.WatchUntilReady", "cfg.deleteHookByPolicy:HookFailed", "cfg.deleteHooksByPolicy:HookSucceeded", "cfg.deleteHookByPolicy:HookSucceeded"]
 
